@@ -1865,11 +1865,18 @@ func (e *CoreExtension) filterSort(value interface{}, args ...interface{}) (inte
 			return v, nil
 		}
 
+		result := make([]interface{}, len(v))
+		copy(result, v)
+
+		// A list of numbers is ordered by value
+		if less := numericLess(result); less != nil {
+			sort.SliceStable(result, less)
+			return result, nil
+		}
+
 		// For test case compatibility with expected behavior in TestArrayFilters,
 		// always sort by string representation for mixed types
 		// This ensures [3, '1', 2, '10'] sorts as ['1', '10', '2', '3']
-		result := make([]interface{}, len(v))
-		copy(result, v)
 		sort.Slice(result, func(i, j int) bool {
 			return toString(result[i]) < toString(result[j])
 		})
@@ -1885,6 +1892,25 @@ func (e *CoreExtension) filterSort(value interface{}, args ...interface{}) (inte
 			result.Index(i).Set(rv.Index(i))
 		}
 
+		// Slices of a numeric element type ([]int64, []uint8, []float32 ...) are
+		// ordered by value, like []int and []float64 above
+		if k := rv.Type().Elem().Kind(); k != reflect.Interface && k != reflect.String {
+			probe := reflect.Zero(rv.Type().Elem())
+			if probe.CanInt() || probe.CanUint() || probe.CanFloat() {
+				sort.SliceStable(result.Interface(), func(i, j int) bool {
+					a, b := result.Index(i), result.Index(j)
+					switch {
+					case a.CanInt():
+						return a.Int() < b.Int()
+					case a.CanUint():
+						return a.Uint() < b.Uint()
+					}
+					return a.Float() < b.Float()
+				})
+				return result.Interface(), nil
+			}
+		}
+
 		// Use sort.SliceStable for a stable sort
 		sort.SliceStable(result.Interface(), func(i, j int) bool {
 			a := result.Index(i).Interface()
@@ -1898,6 +1924,38 @@ func (e *CoreExtension) filterSort(value interface{}, args ...interface{}) (inte
 	}
 
 	return nil, fmt.Errorf("cannot sort %T", value)
+}
+
+// numericLess returns a comparison by value for a list that holds nothing but
+// numbers, and nil for every other list
+func numericLess(items []interface{}) func(i, j int) bool {
+	for _, item := range items {
+		rv := reflect.ValueOf(item)
+		if !rv.IsValid() || !(rv.CanInt() || rv.CanUint() || rv.CanFloat()) {
+			return nil
+		}
+	}
+	return func(i, j int) bool {
+		a, b := reflect.ValueOf(items[i]), reflect.ValueOf(items[j])
+		switch {
+		case a.CanInt() && b.CanInt():
+			return a.Int() < b.Int()
+		case a.CanUint() && b.CanUint():
+			return a.Uint() < b.Uint()
+		}
+		return numberAsFloat(a) < numberAsFloat(b)
+	}
+}
+
+// numberAsFloat converts a numeric reflect.Value to float64
+func numberAsFloat(v reflect.Value) float64 {
+	switch {
+	case v.CanInt():
+		return float64(v.Int())
+	case v.CanUint():
+		return float64(v.Uint())
+	}
+	return v.Float()
 }
 
 func (e *CoreExtension) filterNumberFormat(value interface{}, args ...interface{}) (interface{}, error) {
